@@ -1018,16 +1018,32 @@ def emit_fn(unit, loc, dlines, tmpl_where):
         return {'k': 'repo', 'file': rel, 'line': line0 + text.count('\n', 0, off_in_text), 'fn': fn_id}
 
     def emit_clause_lines(section, lines_, key=None):
-        for cl in lines_:
+        # a clause may span several lines; its `//#label` sits on the last one: give it to all of them
+        group_label = {}
+        start = 0
+        for k, cl in enumerate(lines_):
             code, label, cprops = _split_label(cl, props)
+            if label is not None or code.rstrip().endswith(',') or code.rstrip().endswith(';') or code.strip() in ('invariant', 'invariant_except_break', 'ensures', 'decreases', 'requires', '}'):
+                for j in range(start, k + 1):
+                    group_label[j] = (label, cprops) if label is not None else None
+                start = k + 1
+        first_of_group = set()
+        seen = set()
+        for idx_, cl in enumerate(lines_):
+            code, label, cprops = _split_label(cl, props)
+            g = group_label.get(idx_)
+            if label is None and g is not None:
+                label, cprops = g
             st = code.strip()
             is_kw = st in ('invariant', 'invariant_except_break', 'ensures', 'decreases', 'requires', 'proof {', '}', '') or st.startswith('//')
             sect = section
             org = {'k': 'clause', 'fn': fn_id, 'section': sect, 'label': label, 'props': cprops,
                    'text': norm_ws(st), 'tmpl': tmpl_where, 'kw': is_kw, 'key': key}
             unit.emit(code + '\n', org)
-            if not is_kw:
+            if not is_kw and not (label is not None and (section, label) in seen):
                 unit.clauses.append(org)
+            if label is not None:
+                seen.add((section, label))
 
     for a in attrs:
         unit.emit(a + '\n', {'k': 'tmpl', 'line': 0, 'file': tmpl_where})
